@@ -188,6 +188,7 @@ pub fn spell_line(ln: &Value, rng: &mut Rng) -> String {
                         format!("{l}")
                     }
                 }
+                "tiny" => rng.pick(&["1e-20", "0.00000000000000000001", "1e-300", "1e-16"]).to_string(),
                 _ => rng.pick(&["x", "", "NaN", "131073", "1e400"]).to_string(),
             });
             let ns: Vec<String> = geta(ln, "nsnd")
@@ -303,7 +304,8 @@ pub fn proj_obj(h: &HitObject) -> Value {
         HitObjectKind::Slider(s) => json!({"k": "slider", "x": num(s.pos.x as f64), "y": num(s.pos.y as f64), "t": t,
             "nc": s.new_combo, "co": s.combo_offset, "smp": smp,
             "cps": proj_cps(s.path.control_points(), s.pos.x, s.pos.y), "rep": s.repeat_count,
-            "len": s.path.expected_dist().map(num).unwrap_or(json!(-1)),
+            // (a requested length below 1e-15 is the model's class "tiny", shown as 0)
+            "len": s.path.expected_dist().map(|l| if l > 0.0 && l < 1e-15 { json!(0) } else { num(l) }).unwrap_or(json!(-1)),
             "nodes": s.node_samples.iter().map(|n| proj_samples(n)).collect::<Vec<_>>(), "dur": 0}),
         HitObjectKind::Spinner(s) => json!({"k": "spinner", "x": num(s.pos.x as f64), "y": num(s.pos.y as f64), "t": t,
             "nc": s.new_combo, "co": 0, "smp": smp, "cps": [], "rep": 0, "len": -1, "nodes": [], "dur": num(s.duration)}),
